@@ -371,20 +371,20 @@ func main() {
 		}
 	}
 	r := gen.NewRand(f.Seed)
-	for i, n := 0, f.N(800, 15000); i < n; i++ {
+	for i, n := 0, f.N(800, 10000); i < n; i++ {
 		nlCase(w, r)
 	}
-	for i, n := 0, f.N(800, 15000); i < n; i++ {
+	for i, n := 0, f.N(800, 10000); i < n; i++ {
 		chunkCase(w, r)
 	}
-	for i, n := 0, f.N(800, 15000); i < n; i++ {
+	for i, n := 0, f.N(800, 10000); i < n; i++ {
 		colCase(w, r)
 	}
-	for i, n := 0, f.N(150, 2500); i < n; i++ {
+	for i, n := 0, f.N(150, 1500); i < n; i++ {
 		fillCases(w, r, 8)
 	}
 	files := 0
-	for i, n := 0, f.N(100, 1000); i < n; i++ {
+	for i, n := 0, f.N(100, 800); i < n; i++ {
 		docs := e2lib.GenCorpus(r)
 		for k := 0; k < 6; k++ {
 			q, class := e2lib.GenQuery(r, docs)
